@@ -32,5 +32,7 @@ verus! {
 
 /*@include units/lib0_v2/rt_rl.rs @*/
 
+/*@include units/lib0_v2/examples.rs @*/
+
 } // verus!
 fn main() {}
